@@ -195,6 +195,20 @@ def check(run):
     run.instance("R5", fw.where, "fix_winding reverses a face whose shared edge runs the same way as its neighbour's, and stores the faces", ok)
     if not ok:
         run.violation("R5", fw.where, "fix_winding's reversal test or store changed", key=key_of("C18-R5", "fix_winding"))
+    # ------------------------------------------------------------------ R6 smallest fillable mesh
+    run.rule("R6", "fill_holes gives up early only below three faces (a tetrahedron minus one face has three and can be closed); submesh(repair=True) keeps what fill_holes closed")
+    fh = ix.func("trimesh.repair:fill_holes")
+    thr = []
+    for st in fh.node.body:
+        if isinstance(st, ast.If) and isinstance(st.test, ast.Compare) and ast.unparse(st.test.left) == "len(mesh.faces)" and isinstance(st.test.ops[0], (ast.Lt, ast.LtE)) \
+                and isinstance(st.test.comparators[0], ast.Constant) and any(isinstance(x, ast.Return) for x in st.body):
+            n_ = st.test.comparators[0].value + (1 if isinstance(st.test.ops[0], ast.LtE) else 0)
+            thr.append(n_)
+    ok = all(n_ <= 3 for n_ in thr)
+    run.instance("R6", fh.where, f"fill_holes returns early for len(faces) < {thr or 'never'}", ok)
+    if not ok:
+        run.violation("R6", fh.where, f"fill_holes refuses meshes with fewer than {max(thr)} faces: a tetrahedron missing one face (three faces, one triangular hole) is no longer closed",
+                      key=key_of("C18-R6", "min-faces"))
     run.assume("real arithmetic; that BFS re-winding reaches consistency for every flip subset, hole detection, Euler number, edge-length bound and Loop "
                "masks are not decided")
     return {
